@@ -42,8 +42,8 @@ CID_RELATIONS = ["distinct", "both_clients_zero", "server_cid_prefix", "client_c
 def describe(tier):
     q = tier == "quick"
     return {
-        "rule": "all unordered pairs (incl. same kind) of {TLS1.2, TLS1.3, TLS1.0-CBC, QUIC-GCM, QUIC-ChaCha, QUIC with the ClientHello split over two reordered Initials, SSL3-RC4, QUIC with large packet numbers} x 6 endpoint "
-                "relations (incl. crossed hosts) (x 6 connection-ID relations for QUIC pairs); every order-preserving merge with <= "
+        "rule": "all unordered pairs (incl. same kind) of {TLS1.2, TLS1.3, TLS1.0-CBC, QUIC-GCM, QUIC-ChaCha, QUIC with the ClientHello split over two reordered Initials, SSL3-RC4, QUIC with large packet numbers} x 12 endpoint relations (different hosts, same hosts, one client two servers, 443/44330, v4/v6, crossed hosts, resumed session, a port number in two roles, TCP to a QUIC server's port, numerically equal v4/v6 addresses, "
+                "the first connection ending inside a record, two clients with one source port) (x 9 connection-ID relations for QUIC pairs: distinct, zero-length, prefixes, equal client / server IDs, short ID vs zero-length); every order-preserving merge with <= "
                 + ("3 context switches" if q else "5 context switches, and ALL merges for the pairs of the two shortest flows") +
                 "; triples and one 4-set with unrelated traffic (DNS-like UDP, HTTP on 80, ARP) with <= "
                 + ("1" if q else "2") + " switch(es) per pair of neighbours; key-log line permutations on one schedule "
